@@ -122,7 +122,7 @@ def observed_pre(gp):
         if hasattr(operand, "untyped_representation"):
             text = operand.untyped_representation
         else:
-            text = operand.to_pddl()
+            text = operand.to_pddl(12)
         out[(conn, sexp.dumps(norm(sexp.read(text))))] += 1
     return out
 
@@ -149,6 +149,12 @@ def check_case(case):
         return r
     S = pg.S
     act = S.actions["a"]
+    # attribution (DESIGN §2.4): grounding is judged against the schema the parser produced; a parser that
+    # altered the schema is C01's business.  The source reading is used only when no abstraction is available.
+    schema = pg.P.actions["a"] if pg.P is not None and "a" in pg.P.actions else act
+    if [t for _, t in schema.params] != [t for _, t in act.params] or len(schema.params) != len(act.params):
+        r.skipped = "parsed signature differs from the source (C01's business)"
+        return r
     ptype = dict(act.params)
     for args in S.calls(act, pg.objs):
         beta = dict(zip([p for p, _ in act.params], args))
@@ -172,7 +178,7 @@ def check_case(case):
                    "grounded", op.to_json(), tags=case["tags"])
             break
         # preconditions
-        want, want_lifted = expected_pre(S, act.pre, beta)
+        want, want_lifted = expected_pre(S, schema.pre, beta)
         got = guard(observed_pre, op.grounded_preconditions)
         if isinstance(got, Raised) or set(got) != set(want):
             if not isinstance(got, Raised) and set(got) == set(want_lifted):
@@ -202,7 +208,7 @@ def check_case(case):
                 collect(phi[2], True)
             elif not in_forall and (h in S.predicates or (h == "not" and phi[1][0] in S.predicates)):
                 lits.append(phi)
-        collect(act.pre)
+        collect(schema.pre)
         want_typed = Counter(expected_typed(S, act, l, beta, pg.objs) for l in lits)
         got_typed = guard(lambda: Counter(str(o) for _, o in op.grounded_preconditions
                                           if hasattr(o, "object_mapping")))
@@ -215,14 +221,14 @@ def check_case(case):
                    sorted(typed_bad[0].items()), sorted(typed_bad[1].items()), tags=case["tags"])
             break
         # effect groups
-        want_groups = expected_groups(S, act.eff, beta)
+        want_groups = expected_groups(S, schema.eff, beta)
 
         def observed_groups():
             out = []
             for ge in op.grounded_effects:
                 cond = observed_pre(ge.grounded_antecedents) if ge.grounded_antecedents is not None else None
                 disc = Counter(sexp.dumps(norm(sexp.read(p.untyped_representation))) for p in ge.grounded_discrete_effects)
-                nume = Counter(sexp.dumps(norm(sexp.read(e.to_pddl()))) for e in ge.grounded_numeric_effects)
+                nume = Counter(sexp.dumps(norm(sexp.read(e.to_pddl(12)))) for e in ge.grounded_numeric_effects)
                 out.append((cond, disc, nume))
             return out
         got_groups = guard(observed_groups)
